@@ -237,10 +237,36 @@ def check(ctx):
 
 
 def replay(ctx, path):
+    """exit 0 iff the history of the replay file now gives one transaction per exchange with matching request / response ids"""
     obj = json.load(open(path))
     c = obj.get("case")
     if not c:
         print(json.dumps(obj, indent=1)[:2000]); return 1
     out, bad = sconnp.run_impl(ctx, [c], tag="replay")
-    print("case:", c[:500]); print(obj.get("problem")); print("transactions:", len(sconnp.tx_dumps(out[0])) if out else bad)
-    return 1
+    if bad or not out:
+        print("implementation crashed:", bad); return 1
+    dumps = sconnp.tx_dumps(out[0])
+    ok = all(d != "N" for d in dumps)
+    ids = []
+    for d in dumps:
+        if d == "N":
+            continue
+        u = sconnp.field(d, "u")
+        uri = bytes.fromhex(u) if u not in (None, "NULL", "-") else b""
+        m = re.match(rb"/?r(\d+)", uri)
+        hm = re.search(r"SH=\[([^\]]*)\]", d)
+        sid = None
+        for h in (hm.group(1).split("/") if hm and hm.group(1) else []):
+            f = h.split(":")
+            if f[0] != "-" and bytes.fromhex(f[0]).lower() == b"resp-id" and f[1] != "-":
+                try:
+                    sid = int(bytes.fromhex(f[1]).split(b",")[0])
+                except ValueError:
+                    sid = None
+        ids.append((int(m.group(1)) if m else None, sid))
+    print("case:", c[:500]); print("recorded problem:", obj.get("problem")); print("transactions now:", len(dumps), "(request id, response id) per transaction:", ids)
+    if obj.get("expected") is not None:
+        ok = ok and len(dumps) == obj["expected"]        # regression witness: the number of transactions is what the finding was about
+    else:
+        ok = ok and all(a == b == k for k, (a, b) in enumerate(ids))
+    return 0 if ok else 1
